@@ -2,8 +2,8 @@ package main
 
 import (
 	"fmt"
-	"os"
 	"go/types"
+	"os"
 	"strings"
 
 	"golang.org/x/tools/go/ssa"
@@ -67,7 +67,7 @@ func checkNames(p *Program, r *Report) {
 			// result indexed by this loop's variable
 			var comp *Term
 			cm := termByKey(s.Loop)
-			for k := range s.St.facts {
+			for _, k := range sortedFactKeys(s.St) {
 				s.St.fterm[k].walk(func(u *Term) {
 					if u.Op == "elem" && u.Args[0].Op == "pcall" && cm != nil && u.Args[1].contains(cm) {
 						comp = u
@@ -203,7 +203,9 @@ func checkNames(p *Program, r *Report) {
 			// 2. every ancestor directory was looked up: an inner loop walked the
 			// name up to the empty string, each step finding no ref
 			walked := false
-			for k, v := range s.St.facts {
+			for _, k := range sortedFactKeys(s.St) {
+				v := s.St.facts[k]
+				_ = v
 				t := s.St.fterm[k]
 				if t.Op == "eq" && v {
 					for i := 0; i < 2; i++ {
@@ -338,7 +340,9 @@ func checkLookupSound(p *Program, r *Report, prefix *ssa.Function) {
 		res := s.Vals[0]
 		if os.Getenv("RSA_DEBUG") == "16" {
 			fmt.Fprintf(os.Stderr, "LOOKUP ret %s events=%d\n", res.key, len(s.Events))
-			for k, v := range s.St.facts {
+			for _, k := range sortedFactKeys(s.St) {
+				v := s.St.facts[k]
+				_ = v
 				fmt.Fprintf(os.Stderr, "    %s = %v\n", k, v)
 			}
 		}
@@ -359,7 +363,9 @@ func checkLookupSound(p *Program, r *Report, prefix *ssa.Function) {
 		case res.Op == "pcall" && res.Aux == "strings.HasPrefix":
 			recName := res.Args[0]
 			del := -1
-			for k, v := range s.St.facts {
+			for _, k := range sortedFactKeys(s.St) {
+				v := s.St.facts[k]
+				_ = v
 				t := s.St.fterm[k]
 				if t != nil && t.Op == "maplookup" && len(t.Args) == 2 && t.Args[1] == recName {
 					if v {
